@@ -243,7 +243,7 @@ def run(ctx):
             documented.setdefault((sc['name'], len(sc['params'])), set()).update(sc['sc'])
     skippers = {}
     for g in regs:
-        if not g['impl'] or not g['spec'] or g['impl'][0] != 'native':
+        if not g['impl'] or g['impl'][0] != 'native':
             continue
         cl = g['impl'][2]
         ident = g['fn']
@@ -287,6 +287,10 @@ def run(ctx):
                     for p in ps:
                         if p.get('k') == 'mcall' and p['method'] in ('map', 'for_each') and argname in src(p['recv']):
                             it = p
+                        # `for a in args` / `for (a, x) in args.iter().zip(..)`: the loop variable is an element of args
+                        if p.get('k') == 'for' and argname in re.findall(r'\w+', src(p.get('iter') or {})) \
+                                and es.lstrip('&') in [x.get('name') for x, _ in find_nodes(p.get('pat') or {}, lambda y: y.get('k') == 'pident')]:
+                            it = p
                     if it is None and argname not in es:
                         evals.append((None, n['line'], bp, 'foreign:' + es))
         # duplicates / order on compatible paths
@@ -308,7 +312,7 @@ def run(ctx):
             r5.fail('%s/inspects-argument-expression' % ident, '%s:%d' % (g['file'], destruct[0][0]['line']), 'the native pattern-matches on the shape of an argument expression (XExpr::..): evaluation depends on syntax, and parts of it can be evaluated twice')
         r5.inst({'native': ident, 'argument_evaluations': [(k, how) for k, _, _, how in evals]}, ok=True, kind=ident + str(g['line']))
         # R02.6: required parameters that some value-returning path does not evaluate
-        req = len(g['spec']['required'])
+        req = len(g['spec']['required']) if g['spec'] else 0   # spec-less (dyn, variadic) natives: only the loop clause applies
 
         def is_eval_of(n, K):
             if not ((n.get('k') == 'call' and src(n['func']) == 'eval') or (n.get('k') == 'mcall' and n['method'] == 'eval')):
@@ -371,6 +375,15 @@ def run(ctx):
             return any(must(v, K) for kk, v in n.items() if isinstance(v, (dict, list)))
 
         body = cl['body']
+        # variadic natives evaluate their arguments in a loop over `args`: a value return inside that loop skips every
+        # later argument (its error and its effects), whatever the declared arity
+        for lp, lps in find_nodes(body, lambda y: y.get('k') == 'for' and argname in re.findall(r'\w+', src(y.get('iter') or {}))):
+            if any(p.get('k') == 'closure' for p in lps):
+                continue
+            skips = value_return_inside(lp.get('body'))
+            r6.inst({'native': ident, 'name': g['name'], 'loop_over_args': '%s:%d' % (g['file'], lp['line']), 'value_return_inside': skips}, ok=not skips, kind=(ident, 'loop', lp['line']))
+            if skips:
+                r6.fail('%s/returns-inside-args-loop' % ident, '%s:%d' % (g['file'], lp['line']), 'native `%s` returns a value from inside its loop over the arguments: the remaining arguments are never evaluated, so their errors and effects are silently skipped (not a documented short-circuit)' % g['name'])
         always_error = src(body).startswith('xerr(')
         iterates_all = bool(find_nodes(cl['body'], lambda y: y.get('k') == 'mcall' and y['method'] in ('iter', 'map', 'skip') and natives.strip(y['recv']).get('path') == argname))
         for K in range(req):
